@@ -101,7 +101,18 @@ func flagInt(args []string, name string, v, unset int) []string {
 	return append(args, name, strconv.Itoa(v))
 }
 
+var boolForms int
+
+// flagBool renders a boolean switch: bare / absent, or - for every third call - with its value spelt
+// out (--flag=true, --flag=false: a switch that is given is not thereby on).
 func flagBool(args []string, name string, v bool) []string {
+	boolForms++
+	if strings.HasPrefix(name, "--") && boolForms%3 == 0 {
+		if v {
+			return append(args, name+"=true")
+		}
+		return append(args, name+"=false")
+	}
 	if v {
 		return append(args, name)
 	}
